@@ -7,6 +7,7 @@ import Model.Md6
 import Spec.Md6
 import Proofs.Lemmas.Md6F
 import Proofs.Lemmas.Md6V
+import Proofs.Lemmas.Md6Mode
 namespace Proofs.C17
 open Model Model.Md6 Proofs.Lemmas
 
@@ -84,6 +85,98 @@ theorem V_layout_seq (d keylen L r p : Nat) (hr : r < 2^12) (hL : L < 2^8) (hp :
 theorem U_layout (level index : Nat) (hl : level < 2^8) (hi : index < 2^56) :
     ((level <<< 56) + index) % 2 ^ 64 = (Spec.Md6.U level index).toNat :=
   Md6V.U_eq level index hl hi
+
+/-! ### mode of operation
+
+  Hypotheses used below, all part of the property's own quantifier (and of the report's parameter space):
+  d ≤ 512, L ≤ 64, 1 ≤ r < 4096 (a 12-bit field), key of at most 64 bytes, bytes are < 256, the message is shorter
+  than 2^64 bits (the report's bound; it keeps the node index inside its 56-bit field), and an explicit bit length
+  does not exceed the message. `m` = the bit length actually hashed = `bitlen` if given, else 8|M|. -/
+
+private theorem dom {d L r : Nat} {key : List Nat} (hd : d ≤ 512) (hL : L ≤ 64) (hr1 : 1 ≤ r) (hr : r < 4096)
+    (hkey : key.length ≤ 64) (hkb : ∀ x ∈ key, x < 256) : Md6Mode.Dom d L r key :=
+  ⟨by omega, by omega, hr1, by omega, hkey, hkb⟩
+
+/-- one call of MD6.PAR at any level 1..255 is the report's PAR: j = max(1,⌈m/4096⌉) compressions of
+    Q‖K‖U(ℓ,i)‖V(r,L,z,p,keylen,d)‖B_i with z = [j = 1] and p = the padding bits of the last block -/
+theorem par_level_refines (d L r : Nat) (key M : List Nat) (level : Nat) (bitlen : Option Nat)
+    (hd : d ≤ 512) (hL : L ≤ 64) (hr1 : 1 ≤ r) (hr : r < 4096) (hkey : key.length ≤ 64)
+    (hkb : ∀ x ∈ key, x < 256) (hM : ∀ x ∈ M, x < 256) (hlevel : level < 256)
+    (hbl : bitlen.getD (8 * M.length) ≤ 8 * M.length) (hlen : 8 * M.length < 2 ^ 64) :
+    Md6.PAR (Md6.new d key L (some r)) level M bitlen =
+      .ok (Spec.Md6.ofWords (Spec.Md6.par ⟨d, key, L, r⟩ level M (bitlen.getD (8 * M.length)))) :=
+  Md6Mode.par_refines (dom hd hL hr1 hr hkey hkb) level hlevel M hM bitlen hbl hlen
+
+/-- MD6.SEQ is the report's SEQ (chained compressions with the 16-word chaining prefix, z = 1 and p on the last
+    block only, node ids (L+1, i)) followed by the final chop to d bits -/
+theorem seq_refines (d L r : Nat) (key M : List Nat) (bitlen : Option Nat)
+    (hd : d ≤ 512) (hL : L ≤ 64) (hr1 : 1 ≤ r) (hr : r < 4096) (hkey : key.length ≤ 64)
+    (hkb : ∀ x ∈ key, x < 256) (hM : ∀ x ∈ M, x < 256)
+    (hbl : bitlen.getD (8 * M.length) ≤ 8 * M.length) (hlen : 8 * M.length < 2 ^ 64) :
+    Md6.SEQ (Md6.new d key L (some r)) M bitlen =
+      .ok (Spec.Md6.chop d (Spec.Md6.seq ⟨d, key, L, r⟩ M (bitlen.getD (8 * M.length)))) :=
+  Md6Mode.seq_refines (dom hd hL hr1 hr hkey hkb) (by omega) M hM bitlen hbl hlen
+
+/-- END-TO-END: for every digest size d ≤ 512, every mode parameter L ≤ 64 (sequential, hybrid, hierarchical),
+    every key of at most 64 bytes, every round count 1 ≤ r < 4096 assigned to `.rounds`, every message and every
+    bit length m ≤ 8|M| (given explicitly or not), `MD6(d,key,L)(M,bitlen)` returns the digest the report defines
+    (in particular it returns, it never raises and the level loop terminates) -/
+theorem md6_refines (d L r : Nat) (key M : List Nat) (bitlen : Option Nat)
+    (hd : d ≤ 512) (hL : L ≤ 64) (hr1 : 1 ≤ r) (hr : r < 4096) (hkey : key.length ≤ 64)
+    (hkb : ∀ x ∈ key, x < 256) (hM : ∀ x ∈ M, x < 256)
+    (hbl : bitlen.getD (8 * M.length) ≤ 8 * M.length) (hlen : 8 * M.length < 2 ^ 64) :
+    Md6.call (Md6.new d key L (some r)) M bitlen =
+      .ok (Spec.Md6.md6 ⟨d, key, L, r⟩ M (bitlen.getD (8 * M.length))) := by
+  unfold Md6.call Spec.Md6.md6
+  exact Md6Mode.loop_refines (dom hd hL hr1 hr hkey hkb) (by omega) M.length 0 M bitlen (Nat.zero_le _) hM hbl hlen
+    (by omega)
+
+/-- … and with the constructor's default round count, which is the report's r = 40 + ⌊d/4⌋ (≥ 80 with a key) -/
+theorem md6_refines_default_rounds (d L : Nat) (key M : List Nat) (bitlen : Option Nat)
+    (hd : d ≤ 512) (hL : L ≤ 64) (hkey : key.length ≤ 64)
+    (hkb : ∀ x ∈ key, x < 256) (hM : ∀ x ∈ M, x < 256)
+    (hbl : bitlen.getD (8 * M.length) ≤ 8 * M.length) (hlen : 8 * M.length < 2 ^ 64) :
+    Md6.call (Md6.new d key L) M bitlen =
+      .ok (Spec.Md6.md6 ⟨d, key, L, Spec.Md6.defaultRounds d key.length⟩ M (bitlen.getD (8 * M.length))) := by
+  have h : Md6.new d key L = Md6.new d key L (some (Spec.Md6.defaultRounds d key.length)) := by
+    simp only [Md6.new, Option.getD_none, Option.getD_some, Md6.defaultRounds, Spec.Md6.defaultRounds]
+    by_cases hk : key.length = 0 <;> simp [hk]
+  rw [h]
+  apply md6_refines d L _ key M bitlen hd hL _ _ hkey hkb hM hbl hlen
+  · unfold Spec.Md6.defaultRounds; split <;> omega
+  · unfold Spec.Md6.defaultRounds; split <;> omega
+
+/-- the digest has exactly ⌈d/8⌉ bytes, and when d is not a multiple of 8 the unused low bits of the last byte are
+    zero (the d bits are left-aligned) -/
+theorem digest_length (d L r : Nat) (key M : List Nat) (bitlen : Option Nat)
+    (hd : d ≤ 512) (hL : L ≤ 64) (hr1 : 1 ≤ r) (hr : r < 4096) (hkey : key.length ≤ 64)
+    (hkb : ∀ x ∈ key, x < 256) (hM : ∀ x ∈ M, x < 256)
+    (hbl : bitlen.getD (8 * M.length) ≤ 8 * M.length) (hlen : 8 * M.length < 2 ^ 64) :
+    ∃ out, Md6.call (Md6.new d key L (some r)) M bitlen = .ok out ∧ out.length = (d + 7) / 8 ∧
+      (d % 8 ≠ 0 → out.getD (d / 8) 0 % 2 ^ (8 - d % 8) = 0) := by
+  refine ⟨_, md6_refines d L r key M bitlen hd hL hr1 hr hkey hkb hM hbl hlen, Md6Mode.chop_length _ _, ?_⟩
+  intro h8
+  exact Md6Mode.chop_low_bits d h8 _
+
+/-- an explicit bit length larger than the message is refused in every mode -/
+theorem bitlen_beyond_message_refused (d L : Nat) (r : Option Nat) (key M : List Nat) (b : Nat)
+    (hb : 8 * M.length < b) : ∃ e, Md6.call (Md6.new d key L r) M (some b) = .error e := by
+  unfold Md6.call Md6.levelLoop
+  simp only [Nat.zero_add]
+  split
+  · obtain ⟨e, he⟩ := Md6Mode.nullBlocks_too_long 3072 M b hb
+    exact ⟨e, by simp [Md6.SEQ, he, bind, Except.bind]⟩
+  · obtain ⟨e, he⟩ := Md6Mode.nullBlocks_too_long 4096 M b hb
+    exact ⟨e, by simp [Md6.PAR, he, bind, Except.bind]⟩
+
+/-! ### non-vacuity: the hypothesis sets are inhabited by non-trivial instances, and the theorems say something -/
+
+example : Md6.call (Md6.new 250 [1, 2, 3] 1 (some 2)) (List.replicate 600 7) (some 4797) =
+    .ok (Spec.Md6.md6 ⟨250, [1, 2, 3], 1, 2⟩ (List.replicate 600 7) 4797) :=
+  md6_refines 250 1 2 [1, 2, 3] (List.replicate 600 7) (some 4797) (by omega) (by omega) (by omega) (by omega)
+    (by decide) (by decide) (fun x hx => by simp only [List.mem_replicate] at hx; omega)
+    (by simp only [Option.getD_some, List.length_replicate]; omega)
+    (by simp only [List.length_replicate]; omega)
 
 example : Md6.f 1 (List.replicate 89 0) ≠ List.replicate 16 0 := by decide +kernel
 
